@@ -67,6 +67,28 @@ def main():
     for s_ in PRIMS:
         for d in PRIMS:
             cells.append(("cast", "(cast %s %s)" % (s_, d), "fn main()\n{\n\tvar a: %s = %s;\n\tvar c: %s = a as %s;\n}\n" % (s_, lit(s_), d, d)))
+    # agreement positions: assignment, initialisation, argument / parameter and return, for every pair of primitive types
+    # (and a pointer to each): accepted exactly when the two types are identical
+    agree = []
+    for t1 in PRIMS:
+        for t2 in PRIMS:
+            v = "\tvar a: %s = %s;\n" % (t1, lit(t1))
+            agree.append((t1, t2, "init", "fn main()\n{\n%s\tvar b: %s = a;\n}\n" % (v, t2)))
+            agree.append((t1, t2, "assign", "fn main()\n{\n%s\tvar b: %s = %s;\n\tb = a;\n}\n" % (v, t2, lit(t2))))
+            agree.append((t1, t2, "argument", "fn callee(p: %s)\n{\n}\nfn main()\n{\n%s\tcallee(a);\n}\n" % (t2, v)))
+            agree.append((t1, t2, "return", "fn callee() -> %s\n{\n%s\treturn: a\n}\nfn main()\n{\n}\n" % (t2, v)))
+            agree.append((t1, t2, "pointer-init", "fn main()\n{\n%s\tvar p: &%s = &a;\n}\n" % (v, t2)))
+            agree.append((t1, t2, "pointer-argument", "fn callee(p: &%s)\n{\n}\nfn main()\n{\n%s\tcallee(&a);\n}\n" % (t2, v)))
+    gh = run_harness(["alpha\tcheck\tm.pn\t" + esc(src) for _, _, _, src in agree])
+    agree_bad = []
+    for (t1, t2, pos, src), ha in zip(agree, gh):
+        hh, hd = kv(ha)
+        codes = codes_of(hd) if hh == "err" else []
+        same = t1 == t2
+        ok = (hh == "ok") if same else (hh == "err" and any((500 <= c < 600) or c in (330, 331, 332, 333, 334, 335, 352, 354) for c in codes))
+        dist["agree:%s:%s" % (pos, "same" if same else "different")] += 1
+        if not ok:
+            agree_bad.append((t1, t2, pos, src, ha))
     # calls: every number of arguments against every number of parameters, in expression and statement position, with
     # typed variables and with suffixed literals: accepted exactly when the counts agree (E510 too few, E511 too many)
     arity = []
@@ -109,6 +131,12 @@ def main():
             rep.violation("cell:" + rq, {"why": "model expects %s, compiler says %s %s" % ("E%d" % exp if exp else "acceptance", hh, codes),
                                          "source": src, "harness_request": "alpha\tcheck\tm.pn\t" + esc(src),
                                          "model_request": "optype\t" + rq, "implementation": ha[:300]})
+    for (t1, t2, pos, src, ha) in agree_bad:
+        rep.violation("agree:%s:%s:%s" % (pos, t1, t2), {
+            "why": "%s of a %s to a %s: expected %s, compiler says %s" % (pos, t1, t2, "acceptance" if t1 == t2 else "a typing error (E5xx / E33x)", ha[:200]),
+            "source": src, "harness_request": "alpha\tcheck\tm.pn\t" + esc(src), "implementation": ha[:300]})
+    total += len(agree)
+    agreeing += len(agree) - len(agree_bad)
     for (nparams, nargs, src, ha, want) in arity_bad:
         rep.violation("arity:%d:%d:%s" % (nparams, nargs, src[:200]), {
             "why": "a call with %d argument(s) to a function with %d parameter(s): expected %s, compiler says %s" % (
@@ -150,7 +178,7 @@ def main():
         "evaluations": total, "distinct_nontrivial": total,
         "rule": "exhaustive operator x type matrices: 10 binary operators x 13 x 13 primitive operand types, 6 comparisons x "
                 "13 x 13, 6 comparisons and 2 binary operators on pointers to every pair of pointee types (one and two levels), a "
-                "pointer against its pointee type, 2 unary operators x 13, calls with 0..4 arguments against 0..3 parameters, all 13 x 13 casts (each cell a small program; verdict and code "
+                "pointer against its pointee type, 2 unary operators x 13, calls with 0..4 arguments against 0..3 parameters, initialisation / assignment / argument / return / pointer agreement for all 13 x 13 type pairs, all 13 x 13 casts (each cell a small program; verdict and code "
                 "vs the Lean tables); plus well-typed generated programs with one type-breaking edit (declared type changed, "
                 "literal of another type, bool/int confusion, wrong argument type, missing/extra argument, wrong return type, "
                 "unsigned negation, signed bitwise): the original must be accepted, the mutant rejected with a typing code",
